@@ -16,7 +16,7 @@ ID = "C20"
 RUN_MODULE = "Spec.Glob Model.Redis Model.ClientSide Run.C20"
 EXPLAIN = "explain"
 RULE = ("histories of 4-24 events over 2-3 real BcastClientSide backends sharing one in-process server: get, get_many, exists, set (plain / only-if-absent / "
-        "only-if-present, with and without TTL), set_many, incr (with / without TTL), delete, delete_many, delete_match, expire, clear issued by any client; "
+        "only-if-present, with and without TTL), set_many, incr (with / without TTL), delete, delete_many, delete_match, expire, clear, set_lock / unlock (integer tokens, on value keys) issued by any client; "
         "virtual clock advances of 0.125-12 s (server-side expiry emits invalidations; a dropped listener reconnects after 10 s); drops of one client's "
         "subscription connection at any position (a quarter of the histories: a drop followed by that client's reads interleaved with the others' writes "
         "inside the 10 s before it re-subscribes); after every event the server expires what is due and every pending invalidation is delivered and "
@@ -52,7 +52,9 @@ def _rand_cmd(rng):
     if r < 0.83: return ["delete", rng.choice(U)]
     if r < 0.86: return ["delete_many", rng.sample(U, rng.randint(1, 2))]
     if r < 0.90: return ["delete_match", rng.choice(["a*", "*b", "n", "*"])]
-    if r < 0.98: return ["expire", rng.choice(U), rng.choice([0.5, 1.0, 2.5])]
+    if r < 0.96: return ["expire", rng.choice(U), rng.choice([0.5, 1.0, 2.5])]
+    if r < 0.975: return ["set_lock", rng.choice(["a", "b"]), rng.choice([1, 5, 9]), rng.choice([0.5, 1.0, 2.5])]     # integer tokens: a lock is an only-if-absent write
+    if r < 0.99: return ["unlock", rng.choice(["a", "b"]), rng.choice([1, 5, 9])]
     return ["clear"]
 
 
@@ -88,9 +90,25 @@ def _outage_case(rng):
     return {"clients": n, "events": evs}
 
 
+def _lock_case(rng):
+    """clients contending for one lock key: refused attempts, foreign and owner releases, reads of the key in between, TTL lapses"""
+    n = rng.choice([2, 2, 3])
+    k = rng.choice(["a", "b"])
+    evs = []
+    for _ in range(rng.randint(4, 12)):
+        r = rng.random()
+        c = rng.randrange(n)
+        if r < 0.3: evs.append(["cmd", c, ["set_lock", k, rng.choice([1, 5, 9]), rng.choice([0.5, 1.0, 2.5])]])
+        elif r < 0.5: evs.append(["cmd", c, ["unlock", k, rng.choice([1, 5, 9])]])
+        elif r < 0.8: evs.append(["cmd", c, rng.choice([["exists", k], ["get", k], ["get_many", [k, "ab"]]])])
+        elif r < 0.87: evs.append(["cmd", c, ["delete", k]])
+        else: evs.append(["tick", rng.choice([1, 2, 4, 8, 20])])
+    return {"clients": n, "events": evs}
+
+
 def gen_cases(rng, tier):
     n = 400 if tier == "quick" else 5000
-    return [_rand_case(rng) for _ in range(n - n // 4)] + [_outage_case(rng) for _ in range(n // 4)]
+    return [_rand_case(rng) for _ in range(n - n // 4 - n // 8)] + [_outage_case(rng) for _ in range(n // 4)] + [_lock_case(rng) for _ in range(n // 8)]
 
 
 BASE_MS = int(vclock.BASE * 1000)
@@ -162,6 +180,8 @@ def run_impl(case):
                     elif op == "delete_match": r = ["unit" if (await c.delete_match(cm[1])) is None else "odd"]
                     elif op == "expire":
                         v = await c.expire(cm[1], cm[2]); r = ["none"] if v is None else ["bool", bool(v)]
+                    elif op == "set_lock": r = ["bool", bool(await c.set_lock(cm[1], cm[2], cm[3]))]
+                    elif op == "unlock": r = ["bool", bool(await c.unlock(cm[1], cm[2]))]
                     else:
                         v = await c.clear(); r = ["none"] if v is None else ["bool", bool(v)]
                 except Exception as e:  # noqa
@@ -191,6 +211,8 @@ def _cmd(c):
     if op == "delete_many": return C("KDelMany", [S(k) for k in c[1]])
     if op == "delete_match": return C("KDelMatch", S(c[1]))
     if op == "expire": return C("KExpire", S(c[1]), Z(_px(c[2])))
+    if op == "set_lock": return C("KSetLock", S(c[1]), Z(c[2]), Z(_px(c[3])))
+    if op == "unlock": return C("KUnlock", S(c[1]), Z(c[2]))
     return C("KClear")
 
 
